@@ -147,7 +147,7 @@ def check(P, rep):
                     continue
                 writers += 1
                 shapes = set(variant_name(a) for a in alts(e.val))
-                rep.check(shapes <= {'Approved', 'Executed'} and en in ('approve_messages', 'validate_message'), 'C02.R1',
+                rep.check(shapes <= {'Approved', 'Executed'} and (en in ('approve_messages', 'validate_message') or within_entry(g, e, ('approve_messages', 'validate_message'))), 'C02.R1',
                           '%s:status-shape' % en, 'status write stores Approved(_) or Executed in an approving/consuming entry', esite(g, e), fmt(e.val)[:200])
     rep.floor('MessageApproval writers', writers, 2)
     if writers:
@@ -219,7 +219,7 @@ def check(P, rep):
             rep.check(it and it[0] == ('sym', 'message_executed') and f == {'source_chain': sc, 'message_id': mid, 'source_address': sa,
                                                                             'contract_address': caller, 'payload_hash': ph},
                       'C02.R3', 'validate:event', 'message_executed carries exactly the consumed message', esite(g, e), fmt(e.topics)[:300])
-        others = [e for e in state_effects(g) if e not in ws and e not in pubs]
+        others = [e for e in state_effects(g) if e not in ws and e not in pubs and not is_bookkeeping(e, GATEWAY_KEYS)]
         rep.check(not others, 'C02.R3', 'validate:no-other-effects', 'validate_message has no other effect', entry_id(g),
                   '; '.join(x.describe() for x in others)[:200])
         trues = set(g.exit_sids(lambda v: v == ('b', True)))
